@@ -218,10 +218,38 @@ def r_append(ctx):
                 mapper = F.fn(ct[1])
     if mapper is None:
         g = f
-        is_err = lambda t: paths.mentions_call(t, c.bb)
+
+        def is_err(t, depth=0):
+            if paths.mentions_call(t, c.bb):
+                return True
+            # the error moved into a named local (`if let Err(error) = put(..) { match error { .. } }`): opaque for the term
+            # engine when it is partially moved later on; follow its whole definition
+            if depth < 3:
+                for y in walk(t):
+                    if y[0] == 'var' and isinstance(y[1], int):
+                        for d in f.defs().get(y[1], []):
+                            if not d[-1] and d[0] == 'assign' and is_err(f._def_term(d, 0, frozenset([y[1]])), depth + 1):
+                                return True
+            return False
         rets = paths.ret_assigns(g)
         app = [(b, t) for b, k2, t in rets if k2 == 'err' and paths.err_variant(t) == 'InvalidItemAppend']
         prop = [(b, t) for b, k2, t in rets if k2 in ('err', 'residual') and is_err(t)]
+        # `return Err(match error { KeyExist => InvalidItemAppend, other => other.into() })`: one Err(..) built after the inner
+        # match joined -- the alternatives of its payload are the sites
+        import reader_rules as _rr
+        for b, k2, t in rets:
+            if k2 != 'err':
+                continue
+            pay = strip(dict(strip(t)[3]).get('0', ('unknown',))) if strip(t)[0] == 'agg' else ('unknown',)
+            if pay[0] == 'phi':
+                alts = _rr.phi_defs(f, pay) or []
+                app = [(b0, t0) for b0, t0 in app if b0 != b]
+                for ab, at in alts:
+                    a0 = strip(at)
+                    if a0[0] == 'agg' and a0[2] == 'InvalidItemAppend':
+                        app.append((ab, ('agg', 'std::result::Result', 'Err', [('0', at)])))
+                    elif is_err(at):
+                        prop.append((ab, at))
         in_err_arm = all(b in f.reachable(arms['err']) and b not in f.reachable(arms['ok']) for b, t in app)
     else:
         g = mapper
